@@ -400,14 +400,27 @@ def validDenom (d : Denom) : Bool :=
   | [] => false
   | c :: rest => c.isAlpha && decide (2 ≤ rest.length) && decide (rest.length ≤ 127) && rest.all denomChar
 
+/-- `Params.Validate` on stored parameters -/
+def validParams (p : Params) : Bool :=
+  decide (0 < p.fee) && decide (p.fee < D) && decide (0 < p.pcfAmt) && validDenom p.pcfDenom &&
+  decide (0 < p.tax) && decide (p.tax < D) && decide (p.ufee < D)
+
 /-- `strings.HasPrefix(denom, "lpt")` -/
 def lptPrefixed (d : Denom) : Bool := "lpt".toList.isPrefixOf d.toList
 
-/-- `ParseLptDenom` succeeds: two `-`-separated parts, the second a uint64 -/
+/-- `ParseLptDenom` without the uint64 bound: exactly one `-`, followed by a non-empty string of
+decimal digits (`strings.Split(d, "-")` has two parts and `strconv.ParseUint` accepts the second) -/
+def lptSeq? (d : Denom) : Option Nat :=
+  match d.toList.span (fun c => c != '-') with
+  | (_, '-' :: rest) =>
+    if rest ≠ [] ∧ rest.all Char.isDigit = true then (String.ofList rest).toNat? else none
+  | _ => none
+
+/-- `ParseLptDenom` succeeds (the sequence fits a uint64) -/
 def validLpt (d : Denom) : Bool :=
-  match d.splitOn "-" with
-  | [_, b] => !b.isEmpty && b.toList.all Char.isDigit && decide (b.toNat! < 18446744073709551616)
-  | _ => false
+  match lptSeq? d with
+  | some v => decide (v < 18446744073709551616)
+  | none => false
 
 /-- the harness universe renders an invalid / empty bech32 address as `-` (empty) -/
 def validAddr (a : Addr) : Bool := a != ""
